@@ -16,6 +16,11 @@ Oracle clauses (DESIGN 4 C16):
   M4 valid URL: parts equal the reference parser's; str() is the same URL for canonical
      spellings and a fixed point otherwise
   M5 the library rejects exactly the strings the reference grammar rejects
+  M6 re-assembly histories (stored claim copied through its wire format or kept, then update() again, 1..3 times,
+     incl. file_path of a real scratch file): after every step M1 + M2 against the state the harness computed
+     from its own assignments (a field keeps its value until a later step assigns or clears it), and nothing
+     is left over from what a step replaced: the typed description (image/video/audio) is that of the file the
+     claim points at now, a cleared fee reads as no fee
 """
 import hashlib
 import json
@@ -31,6 +36,9 @@ ID = 'C16'
 LEVEL = 'exploration'
 RULE = ('claims: seeded random field assignments (kind x update()/setters x unicode text classes x integer '
         'boundaries x 3 currencies x 0..N repeated items x signed/unsigned), distinct = distinct serialised bytes; '
+        'update histories of stream claims: all (described file kind x next file kind x dimensions given x copy through '
+        'wire format or in place x file name or real file) transitions plus seeded random 1..3-step histories over all '
+        'update() fields incl. clear_* flags, judged after every step; '
         'URLs: grammar-generated valid URLs, each with every forbidden character inserted at every position '
         'incl. the end and a list of malformed modifiers, plus bounded-exhaustive enumeration of all strings '
         'over a small alphabet and a sweep of every BMP code point in 8 contexts; distinct = distinct string; '
@@ -47,6 +55,10 @@ ASSUMPTIONS = [
     'claim id = hex of the byte-reversed hash (ClaimReference / Purchase / signing channel alike)',
     'plain protobuf parse = independent wire reader using the public field numbers of claim.proto, enum numbers '
     'mapped to names through the generated enum tables',
+    'update histories: the stream type of a file is given by its extension (own table EXT_KIND; scratch files hold plain '
+    'ASCII text, so content sniffing has nothing to recognise); width/height/duration describe the file they were given '
+    'for: they stay while the claim keeps pointing at a file of that stream type and go when it points at a file of '
+    'another type (what upstream test_update_file_type expects); fee address stays when only amount/currency change',
 ]
 REQUIRED_HITS = [
     'M1.roundtrip_checked', 'M1.signed_checked', 'M1.unsigned_checked',
@@ -56,6 +68,7 @@ REQUIRED_HITS = [
     'M3.fixture_checked', 'M3.generated_json_checked', 'M3.generated_v1_checked', 'M3.generated_zero_fee',
     'M4.valid_checked', 'M4.canonical_roundtrip', 'M4.fixed_point',
     'M5.invalid_checked', 'M5.insert_end_checked', 'M5.malformed_modifier_checked',
+    'M6.step_checked', 'M6.media_exact_checked', 'M6.type_changed_nothing_typed_written', 'M6.file_path_checked',
 ]
 
 
@@ -81,6 +94,7 @@ def gen_cases(rng, tier, shard, nshards):
         yield {'fam': 'legacy_fixed'}
         yield {'fam': 'url_fixed'}
         yield {'fam': 'range'}
+        yield {'fam': 'history_fixed'}
     # bounded-exhaustive URL enumeration, strided over the shards
     maxlen = 5 if quick else 6
     nalpha = len(ENUM_ALPHABET_QUICK if quick else ENUM_ALPHABET_THOROUGH)
@@ -100,10 +114,13 @@ def gen_cases(rng, tier, shard, nshards):
     nurl = 15 if quick else 300
     nleg = 3 if quick else 60
     nsp = 2 if quick else 40
+    nhist = 3 if quick else 120
     # interleave the families so that a budget stop still leaves every clause observed
     for j in range(max(nclaim, nurl, nleg, nsp)):
         if j < nclaim:
             yield {'fam': 'claim', 'seed': rng.getrandbits(40), 'count': 50}
+        if j < nhist:
+            yield {'fam': 'history', 'seed': rng.getrandbits(40), 'count': 20}
         if j < nurl:
             yield {'fam': 'url_gen', 'seed': rng.getrandbits(40), 'count': 10}
         if j < nleg:
@@ -609,9 +626,9 @@ def gen_fee(r, mode):
     return fee
 
 
-def gen_claim_spec(r, tables):
-    kind = r.choice(['stream'] * 4 + ['channel'] * 2 + ['repost', 'collection'])
-    mode = r.choice(['update', 'setters'])
+def gen_claim_spec(r, tables, kind=None, mode=None):
+    k, m = r.choice(['stream'] * 4 + ['channel'] * 2 + ['repost', 'collection']), r.choice(['update', 'setters'])
+    kind, mode = kind or k, mode or m       # (histories fix both; the random draws stay the same)
     spec = {'kind': kind, 'mode': mode}
 
     def opt(name, fn, p=0.7):
@@ -776,6 +793,8 @@ def set_repeated_common(obj, spec):
 
 def expected_media(spec):
     """-> (kind|None, {field: value}) that the oracle is entitled to expect."""
+    if 'media_expect' in spec:          # state of an update history: computed step by step (history_apply)
+        return spec['media_expect'][0], dict(spec['media_expect'][1])
     dims = {f: spec[f] for f in ('width', 'height', 'duration') if f in spec}
     if spec['mode'] == 'update':
         if 'file_name' not in spec:
@@ -789,40 +808,46 @@ def expected_media(spec):
     return kind, {f: v for f, v in dims.items() if f in allowed}
 
 
+def update_kwargs(spec):
+    """keyword arguments of <kind>.update() that assign the fields of an update-mode spec (or of one history step)."""
+    kind = spec['kind']
+    kw = {}
+    for f in ('title', 'description', 'thumbnail_url'):
+        if f in spec:
+            kw[f] = spec[f]
+    if 'tags' in spec:
+        kw['tags'] = spec['tags'][0] if spec.get('tags_as_str') else list(spec['tags'])
+    if 'languages' in spec:
+        kw['languages'] = [langtag_of(lg) for lg in spec['languages']]
+    if 'locations' in spec:
+        kw['locations'] = [location_value(loc, True) for loc in spec['locations']]
+    if kind == 'stream':
+        for f in ('author', 'license', 'license_url', 'release_time', 'sd_hash', 'bt_infohash', 'file_name', 'file_hash',
+                  'file_size', 'width', 'height', 'duration'):
+            if f in spec:
+                kw[f] = spec[f]
+        if 'fee' in spec:
+            fee = spec['fee']
+            kw['fee_currency'], kw['fee_amount'] = fee['currency_spelling'], fee['amount']
+            if 'address' in fee:
+                kw['fee_address'] = fee['address']
+    elif kind == 'channel':
+        for f in ('public_key', 'email', 'website_url', 'cover_url', 'featured'):
+            if f in spec:
+                kw[f] = list(spec[f]) if isinstance(spec[f], list) else spec[f]
+    elif kind == 'collection':
+        if 'claims' in spec:
+            kw['claims'] = list(spec['claims'])
+    return kw
+
+
 def build_claim(spec):
     """assemble the claim through the public API.  Exceptions propagate to the caller, which judges them."""
     claim = L.Claim()
     kind, mode = spec['kind'], spec['mode']
     obj = getattr(claim, kind)
     if mode == 'update':
-        kw = {}
-        for f in ('title', 'description', 'thumbnail_url'):
-            if f in spec:
-                kw[f] = spec[f]
-        if 'tags' in spec:
-            kw['tags'] = spec['tags'][0] if spec.get('tags_as_str') else list(spec['tags'])
-        if 'languages' in spec:
-            kw['languages'] = [langtag_of(lg) for lg in spec['languages']]
-        if 'locations' in spec:
-            kw['locations'] = [location_value(loc, True) for loc in spec['locations']]
-        if kind == 'stream':
-            for f in ('author', 'license', 'license_url', 'release_time', 'sd_hash', 'bt_infohash', 'file_name', 'file_hash',
-                      'file_size', 'width', 'height', 'duration'):
-                if f in spec:
-                    kw[f] = spec[f]
-            if 'fee' in spec:
-                fee = spec['fee']
-                kw['fee_currency'], kw['fee_amount'] = fee['currency_spelling'], fee['amount']
-                if 'address' in fee:
-                    kw['fee_address'] = fee['address']
-        elif kind == 'channel':
-            for f in ('public_key', 'email', 'website_url', 'cover_url', 'featured'):
-                if f in spec:
-                    kw[f] = list(spec[f]) if isinstance(spec[f], list) else spec[f]
-        elif kind == 'collection':
-            if 'claims' in spec:
-                kw['claims'] = list(spec['claims'])
-        obj.update(**kw)
+        obj.update(**update_kwargs(spec))
         if kind == 'repost' and 'claim_id' in spec:
             obj.reference.claim_id = spec['claim_id']
     else:
@@ -1271,21 +1296,32 @@ def spec_summary(spec):
     return s
 
 
-def judge_claim(rec, spec, lit):
+def raised_where(e):
+    """file:function of the innermost lbry frame of an exception; a harness exception (no lbry frame) is re-raised."""
+    import traceback
+    inner = [f for f in traceback.extract_tb(e.__traceback__) if '/lbry/' in f.filename]
+    if not inner:
+        raise e
+    return os.path.basename(inner[-1].filename) + ':' + inner[-1].name
+
+
+def build_or_report(rec, spec, lit, summ):
     kind = spec['kind']
-    summ = spec_summary(spec)
     try:
-        claim = build_claim(spec)
+        return build_claim(spec)
     except Exception as e:  # noqa  (raised by the metadata API on an in-range value: judged)
-        import traceback
-        tb = traceback.extract_tb(e.__traceback__)
-        inner = [f for f in tb if '/lbry/' in f.filename]
-        where = (os.path.basename(inner[-1].filename) + ':' + inner[-1].name) if inner else 'harness'
-        if not inner:
-            raise
+        where = raised_where(e)
         rec.violation(f'C16/M2/set-raises/{kind}-{spec["mode"]}/{type(e).__name__}@{where}',
                       f'assembling a {kind} claim through {spec["mode"]} raised {e!r}', {'spec': summ, 'exc': repr(e)}, case=lit)
         rec.case('x' + json.dumps(lit))
+        return None
+
+
+def judge_claim(rec, spec, lit):
+    kind = spec['kind']
+    summ = spec_summary(spec)
+    claim = build_or_report(rec, spec, lit, summ)
+    if claim is None:
         return
     rec.hit('M2.kind.' + kind)
     rec.hit('M2.mode.' + spec['mode'])
@@ -1297,12 +1333,18 @@ def judge_claim(rec, spec, lit):
         rec.hit('M2.location.form-' + loc['form'])
         if loc.get('lat_units') == 0 or loc.get('long_units') == 0:
             rec.log('M2.zero_coordinate_reads_None')
+    judge_built(rec, claim, spec, lit, summ)
+
+
+def judge_built(rec, claim, spec, lit, summ):
+    """M1 + M2 for an assembled claim against the spec that describes what was set.  -> (decoded, wire dict) or None."""
+    kind = spec['kind']
     probes = accessor_probes(spec)
     run_probes(rec, 'set', claim, probes, lit, summ)
     rt = roundtrip(rec, 'Claim', L.Claim, L.ClaimMessage, claim, spec.get('signed'), lit)
     if rt is None:
         rec.case('x' + json.dumps(lit))
-        return
+        return None
     b, dec, mb = rt
     rec.case(b, sample={'claim_spec': summ, 'bytes': b[:120]} if len(b) < 400 and rec.evaluations % 97 == 0 else None)
     run_probes(rec, 'decoded', dec, probes, lit, summ)
@@ -1310,7 +1352,7 @@ def judge_claim(rec, spec, lit):
         w = wire_claim(mb)
     except (pbwire.WireError, UnicodeDecodeError, KeyError) as e:
         rec.violation(f'C16/M2/wire-unreadable/{type(e).__name__}', f'payload is not well-formed protobuf: {e!r}', {'bytes': b}, case=lit)
-        return
+        return None
     for field, cls, fn, want in wire_probes(spec):
         rec.hit('M2.wire_view')
         got = fn(w)
@@ -1331,6 +1373,7 @@ def judge_claim(rec, spec, lit):
         rec.log('to_dict.ok')
     except Exception as e:  # noqa  (to_dict is not part of the statement: logged only)
         rec.log('to_dict.raises_' + type(e).__name__)
+    return dec, w
 
 
 def run_claims(rec, seed, count):
@@ -1344,6 +1387,284 @@ def run_claims(rec, seed, count):
 def judge_claim_seed(rec, sub):
     spec = gen_claim_spec(random.Random(sub), L.tables)
     judge_claim(rec, spec, {'fam': 'claim1', 'seed': sub})
+
+
+# ---- re-assembly histories (M6) --------------------------------------------------------
+# A claim is not only assembled once: `stream_update` / `publish` copy the stored claim through its wire format
+# (Claim.from_bytes(old.to_bytes())) and call update() again with the fields that change.  The state the oracle expects
+# after every step is computed here from what the harness itself assigned, step by step (never read from the claim):
+# a field keeps its value until a later step assigns or clears it, and the typed description (image/video/audio)
+# belongs to the file the claim points at NOW.
+MEDIA_FIELDS = {'video': ('width', 'height', 'duration'), 'audio': ('duration',), 'image': ('width', 'height')}
+HISTORY_SCALARS = ('title', 'description', 'thumbnail_url', 'author', 'license', 'license_url', 'release_time', 'sd_hash',
+                   'bt_infohash', 'file_name', 'file_hash', 'file_size')
+FILE_BASES = ['file', 'my video', '\u0444\u0430\u0439\u043b', '\u4e2d\u6587', 'a.b.c', 'x' * 200, '\U0001f600']
+PATH_BASES = ['file', 'my video', 'a.b.c']           # names of files really written to a scratch directory
+
+
+def file_kind(name):
+    """stream type of the file a claim points at, by extension (independent table); 'no' = no file name at all."""
+    if not name:
+        return 'no'
+    return EXT_KIND.get(os.path.splitext(name)[1].lower(), 'other')
+
+
+def history_start(spec0):
+    st = json.loads(json.dumps(spec0))
+    mk, vals = expected_media(spec0)
+    st['media_expect'] = [mk, vals]
+    st.pop('tags_as_str', None)         # (only ever set for a one-element list)
+    return st
+
+
+def history_apply(state, step):
+    """expected state after update(**step) on a claim in `state`: pure function of what the harness assigned."""
+    st = json.loads(json.dumps(state))
+    for f in HISTORY_SCALARS:
+        if f in step:
+            st[f] = step[f]
+    for l in ('tags', 'languages', 'locations'):
+        if step.get('clear_' + l):
+            st[l] = []
+        if l in step:
+            st[l] = st.get(l, []) + list(step[l])
+    if step.get('clear_fee'):
+        st.pop('fee', None)
+        st['no_fee'] = True
+    elif 'fee' in step:
+        fee = dict(step['fee'])
+        old = st.get('fee', {})
+        if 'address' not in fee and 'address' in old:       # an amount/currency change does not touch the address
+            fee['address'], fee['address_hex'], fee['address_via'] = old['address'], old['address_hex'], 'str'
+        st['fee'] = fee
+        st.pop('no_fee', None)
+    prev_mk, prev_vals = st['media_expect']
+    kind = file_kind(st.get('file_name'))
+    cur = kind if kind in MEDIA_FIELDS else None
+    vals = dict(prev_vals) if cur is not None and cur == prev_mk else {}
+    if cur:
+        vals.update({f: step[f] for f in MEDIA_FIELDS[cur] if f in step})
+    st['media_expect'] = [cur, vals]
+    return st
+
+
+def history_kwargs(step, tmpdir):
+    kw = update_kwargs(step)
+    for l in ('tags', 'languages', 'locations', 'fee'):
+        if step.get('clear_' + l):
+            kw['clear_' + l] = True
+    if step.get('fee', {}).get('amount_only'):
+        kw.pop('fee_currency')
+        kw.pop('fee_address', None)
+    if step.get('file_via') == 'path':
+        # publish / stream_update --file_path: name, size and hash come from the file on disk
+        for f in ('file_name', 'file_size', 'file_hash'):
+            kw.pop(f)
+        kw['file_path'] = os.path.join(tmpdir, step['file_name'])
+        with open(kw['file_path'], 'wb') as f:
+            f.write(step['content'].encode('ascii'))
+    return kw
+
+
+def set_file(r, step, name, via):
+    step['file_name'] = name
+    if via == 'path':
+        # plain ASCII text: no container signature that content sniffing could recognise, nothing for a media parser
+        content = ''.join('%d plain text, not a media container\n' % r.randrange(10 ** 6) for _ in range(r.randrange(1, 40)))
+        step.update({'file_via': 'path', 'content': content, 'file_size': len(content),
+                     'file_hash': hashlib.sha384(content.encode('ascii')).hexdigest()})
+
+
+def gen_dim(r):
+    return r.choice(U32[1:] + [r.randrange(1, 10000)])
+
+
+def gen_history_step(r, tables, state):
+    step = {'kind': 'stream', 'copy': r.choice(['wire', 'wire', 'inplace'])}
+
+    def opt(name, fn, p):
+        if r.random() < p:
+            step[name] = fn()
+    opt('title', lambda: gen_text(r), 0.3)
+    opt('description', lambda: gen_text(r), 0.15)
+    opt('thumbnail_url', lambda: gen_text(r), 0.15)
+    opt('author', lambda: gen_text(r), 0.2)
+    opt('license', lambda: gen_text(r), 0.15)
+    opt('license_url', lambda: gen_text(r), 0.1)
+    opt('release_time', lambda: r.choice(I64 + [r.randrange(0, 2 ** 33)]), 0.2)
+    opt('sd_hash', lambda: gen_hex(r, 48), 0.3)
+    opt('clear_tags', lambda: True, 0.2)
+    if r.random() < 0.3:
+        step['tags'] = [gen_tag(r) for _ in range(r.choice([1, 1, 2, 3, 5]))]
+        if len(step['tags']) == 1 and r.random() < 0.5:
+            step['tags_as_str'] = True
+    opt('clear_languages', lambda: True, 0.2)
+    opt('languages', lambda: [gen_language(r, tables) for _ in range(r.choice([1, 1, 2, 3]))], 0.25)
+    opt('clear_locations', lambda: True, 0.1)
+    opt('locations', lambda: [gen_location(r, tables) for _ in range(r.choice([1, 2]))], 0.15)
+    k = r.random()
+    via = None
+    if k < 0.6:
+        via = 'name' if k < 0.45 else 'path'
+        ext = r.choice(list(EXT_KIND) + ['.MP4', '.Mp3', '.PNG', '.xyz', ''])
+        set_file(r, step, r.choice(PATH_BASES if via == 'path' else FILE_BASES) + ext, via)
+    if via != 'path':
+        opt('file_size', lambda: r.choice(U64 + [r.randrange(0, 2 ** 40)]), 0.2)
+        opt('file_hash', lambda: gen_hex(r, 48), 0.15)
+    dims = r.choice(['none', 'none', 'none', 'all', 'some'])
+    if via == 'path' and file_kind(step['file_name']) in MEDIA_FIELDS:
+        dims = 'all'            # (all three given: the library does not try to analyse the file)
+    for f in ('width', 'height', 'duration'):
+        if dims == 'all' or (dims == 'some' and r.random() < 0.5):
+            step[f] = gen_dim(r)
+    k = r.random()
+    if k < 0.15:
+        step['fee'] = gen_fee(r, 'update')
+    elif k < 0.25:
+        step['clear_fee'] = True
+    elif k < 0.35 and 'fee' in state:
+        cur = state['fee']['currency']
+        places = 2 if cur == 'USD' else 8
+        units = r.randrange(1, 10 ** (places + 4))
+        step['fee'] = dict(state['fee'], units=units, amount=fmt_units(units, places, r.choice([0, 1, 2])), amount_only=True)
+    return step
+
+
+def judge_history_extras(rec, claim, dec, w, before, state, step_no, lit, summ):
+    """M6 clauses the per-field probes cannot express: what must NOT be there any more."""
+    mk, vals = state['media_expect']
+    want = mk if vals else None
+    was = before['media_expect'][0] if before['media_expect'][1] else None
+    now_file = file_kind(state.get('file_name'))
+    rec.hit('M6.media_exact_checked')
+    if was is not None and was != mk:
+        rec.hit('M6.type_changed')
+        if not vals:
+            rec.hit('M6.type_changed_nothing_typed_written')
+    views = []
+    for view, c in (('set', claim), ('decoded', dec)):
+        try:
+            views.append((view, c.stream.stream_type))
+        except Exception as e:  # noqa  (accessor under test)
+            rec.violation(f'C16/M6/accessor-raises/stream_type/{type(e).__name__}', f'{view} view: stream_type raised {e!r}',
+                          {'view': view, 'exc': repr(e), 'history': summ}, case=lit)
+    present = sorted(w['stream']['media'])
+    views.append(('wire', present[0] if len(present) == 1 else (None if not present else '+'.join(present))))
+    for view, got in views:
+        if got is not None and got != want:
+            rec.violation(f'C16/M6/stale-media-description/{got}-on-{now_file}-file',
+                          f'{view} view after step {step_no}: the claim points at {state.get("file_name")!r} ({now_file} file) and '
+                          f'{vals or "no typed field"} was set for it, but it carries a {got} description'
+                          + (f' {w["stream"]["media"].get(got)}' if got in w['stream']['media'] else ''),
+                          {'view': view, 'got': got, 'want': want, 'wire_media': w['stream']['media'], 'history': summ}, case=lit)
+    if state.get('no_fee'):
+        rec.hit('M6.fee_cleared_checked')
+        got = {'set': None, 'decoded': None, 'wire': w['stream']['has_fee']}
+        for view, c in (('set', claim), ('decoded', dec)):
+            try:
+                got[view] = c.stream.has_fee
+            except Exception as e:  # noqa
+                got[view] = repr(e)
+        if any(v is not False for v in got.values()):
+            rec.violation('C16/M6/fee-left-over-after-clear_fee', f'after step {step_no} (clear_fee) has_fee reads {got}',
+                          {'has_fee': got, 'history': summ}, case=lit)
+
+
+def run_history(rec, spec0, steps, lit):
+    """steps: list of step dicts, or a callable(state) -> next step | None (random histories depend on the state)."""
+    import shutil
+    import tempfile
+    claim = build_or_report(rec, spec0, lit, {'spec0': spec_summary(spec0)})
+    if claim is None:
+        return
+    state = history_start(spec0)
+    tmpdir = None
+    try:
+        n = 0
+        while True:
+            step = steps(state) if callable(steps) else (steps[n] if n < len(steps) else None)
+            if step is None:
+                return
+            n += 1
+            if step.get('file_via') == 'path' and tmpdir is None:
+                tmpdir = tempfile.mkdtemp(prefix='c16hist', dir='/dev/shm' if os.path.isdir('/dev/shm') else None)
+            kw = history_kwargs(step, tmpdir)
+            summ = {'start': spec_summary(spec0), 'step_no': n, 'step': spec_summary({k: v for k, v in step.items() if k != 'content'}),
+                    'update_kwargs': sorted(kw)}
+            try:
+                if step['copy'] == 'wire':
+                    claim = L.Claim.from_bytes(claim.to_bytes())    # what the daemon does with the stored claim
+                claim.stream.update(**kw)
+            except Exception as e:  # noqa  (raised by the metadata API on an in-range value: judged)
+                where = raised_where(e)
+                rec.violation(f'C16/M6/update-raises/{type(e).__name__}@{where}', f'step {n} of an update history raised {e!r}',
+                              {'history': summ, 'exc': repr(e)}, case=lit)
+                rec.case('x' + json.dumps(lit) + str(n))
+                return
+            before, state = state, history_apply(state, step)
+            rec.hit('M6.step_checked')
+            rec.hit('M6.copy.' + step['copy'])
+            if step.get('file_via') == 'path':
+                rec.hit('M6.file_path_checked')
+            res = judge_built(rec, claim, state, lit, summ)
+            if res is None:
+                return
+            judge_history_extras(rec, claim, res[0], res[1], before, state, n, lit, summ)
+    finally:
+        if tmpdir is not None:
+            shutil.rmtree(tmpdir, ignore_errors=True)
+
+
+def judge_history_seed(rec, sub):
+    r = random.Random(sub)
+    spec0 = gen_claim_spec(r, L.tables, kind='stream', mode='update')
+    if r.random() < 0.5:
+        # start from a file that has a typed description (the common case for stored claims)
+        spec0['file_name'] = r.choice(FILE_BASES) + r.choice([e for e, k in EXT_KIND.items() if k in MEDIA_FIELDS])
+        for f in MEDIA_FIELDS[file_kind(spec0['file_name'])]:
+            spec0.setdefault(f, gen_dim(r))
+    left = [r.choice([1, 1, 2, 3])]
+
+    def next_step(state):
+        if not left[0]:
+            return None
+        left[0] -= 1
+        return gen_history_step(r, L.tables, state)
+    run_history(rec, spec0, next_step, {'fam': 'history1', 'seed': sub})
+
+
+def run_histories(rec, seed, count):
+    for i in range(count):
+        if rec.out_of_time():
+            return
+        judge_history_seed(rec, seed * 1000 + i)
+
+
+def run_history_fixed(rec):
+    """every (described file kind) x (next file kind) x (which dimensions come with the new file) x (copy mode) transition."""
+    lit = {'fam': 'history_fixed'}
+    first = {'width': 1920, 'height': 1080, 'duration': 3600}
+    second = {'width': 640, 'height': 480, 'duration': 215}
+    r = random.Random(16)
+    for prev_ext in ('.mp4', '.mp3', '.png', '.pdf', '.zip', ''):
+        for next_ext in ('.mkv', '.flac', '.jpg', '.txt', '.zip', '.xyz', '', None):
+            kind = file_kind('b' + (prev_ext if next_ext is None else next_ext))
+            fits = MEDIA_FIELDS.get(kind, ())
+            for dims in ('none', 'fitting', 'unfitting', 'all'):
+                given = {f: v for f, v in second.items() if dims == 'all' or (dims == 'fitting') == (f in fits)} if dims != 'none' else {}
+                if dims in ('fitting', 'unfitting') and (not given or len(given) == 3):
+                    continue        # same as 'none' / 'all'
+                for copy in ('wire', 'inplace'):
+                    for via in ('name', 'path'):
+                        if via == 'path' and (next_ext is None or (kind in MEDIA_FIELDS and dims != 'all')):
+                            continue
+                        spec0 = dict({'kind': 'stream', 'mode': 'update', 'title': 'first', 'file_name': 'a' + prev_ext,
+                                      'sd_hash': 'ab' * 48}, **first)
+                        step = dict({'kind': 'stream', 'copy': copy}, **given)
+                        if next_ext is not None:
+                            set_file(r, step, 'b' + next_ext, via)
+                        rec.hit('M6.fixed_history')
+                        run_history(rec, spec0, [step, {'kind': 'stream', 'copy': copy, 'title': 'title only'}], lit)
 
 
 # ---- supports and purchases ----------------------------------------------------------
@@ -1722,6 +2043,12 @@ def execute(rec, case):
         run_claims(rec, case['seed'], case['count'])
     elif fam == 'claim1':
         judge_claim_seed(rec, case['seed'])
+    elif fam == 'history':
+        run_histories(rec, case['seed'], case['count'])
+    elif fam == 'history1':
+        judge_history_seed(rec, case['seed'])
+    elif fam == 'history_fixed':
+        run_history_fixed(rec)
     elif fam == 'support_purchase':
         for i in range(case['count']):
             judge_support(rec, case['seed'] * 1000 + i)
